@@ -195,6 +195,7 @@ pub fn check(r: &Runner, ctx: &mut Ctx, l: &mut Local, rec: &CaseRec) -> Result<
 }
 
 pub fn run(r: &Runner) {
+    families_phase(r, "partial-prefixes", &|_e, _c| true, check);
     static K: [Kind; 4] = ALL_KINDS;
     let g = GenSpec { kinds: &K, profile: Profile { truncate: 8, mutate: 100, ..Profile::DEFAULT }, generous_cap: true, cfg_mask: 0x7f, cfg_entry_only: false };
     r.par_random(
